@@ -6,7 +6,9 @@ import (
 	"net/url"
 	"os"
 	"os/exec"
+	"path/filepath"
 	"reflect"
+	"strings"
 
 	"github.com/tdewolff/minify/v2"
 
@@ -180,8 +182,29 @@ func c13Extras(env *Env, tape *sim.Tape) *CaseOut {
 	if tape.Draw(2) == 0 {
 		// external commands
 		m := NewRegistry(DefaultOptions())
-		m.AddCmd("text/x-cmd", exec.Command("/bin/cat"))
-		m.AddCmd("text/x-cmdfile", exec.Command("/bin/cp", "$in.txt", "$out.txt"))
+		catCmd, cpCmd := exec.Command("/bin/cat"), exec.Command("/bin/cp", "$in.txt", "$out.txt")
+		m.AddCmd("text/x-cmd", catCmd)
+		m.AddCmd("text/x-cmdfile", cpCmd)
+		// a command whose executable was not on PATH when the user created the exec.Cmd
+		// (cmd.Err is set) and is there by the time of the calls: whatever the calls make of
+		// it, they all make the same of it and leave the user's object alone
+		lateDir, _ := os.MkdirTemp("", "verif-late-")
+		defer os.RemoveAll(lateDir)
+		lateCmd := exec.Command("verif-late-cat")
+		os.Symlink("/bin/cat", filepath.Join(lateDir, "verif-late-cat"))
+		oldPath := os.Getenv("PATH")
+		os.Setenv("PATH", lateDir+string(os.PathListSeparator)+oldPath)
+		defer os.Setenv("PATH", oldPath)
+		m.AddCmd("text/x-cmdlate", lateCmd)
+		userCmds := []*exec.Cmd{catCmd, cpCmd, lateCmd}
+		snap := func() string {
+			var sb strings.Builder
+			for _, c := range userCmds {
+				fmt.Fprintf(&sb, "path=%q args=%q err=%v dir=%q env=%d stdin=%v stdout=%v|", c.Path, c.Args, c.Err, c.Dir, len(c.Env), c.Stdin != nil, c.Stdout != nil)
+			}
+			return sb.String()
+		}
+		userBefore := snap()
 		var tasks [][]*Op
 		var all []*Op
 		for ti := 0; ti < ntasks; ti++ {
@@ -190,7 +213,7 @@ func c13Extras(env *Env, tape *sim.Tape) *CaseOut {
 				data := []byte(fmt.Sprintf("payload of task %d call %d\n", ti, oi))
 				// the call runs in one scheduler turn: a task blocked in a real wait4 must not
 				// depend on a goroutine that is parked for the scheduler
-				op := &Op{Entry: EPlain, MT: []string{"text/x-cmd", "text/x-cmdfile"}[tape.Draw(2)], In: data, NoYield: true}
+				op := &Op{Entry: EPlain, MT: []string{"text/x-cmd", "text/x-cmdfile", "text/x-cmdlate"}[tape.Draw(3)], In: data, NoYield: true}
 				op.W, op.R = sim.NewSimWriter(nil), sim.NewSimReader(nil, data)
 				ops = append(ops, op)
 				all = append(all, op)
@@ -204,10 +227,26 @@ func c13Extras(env *Env, tape *sim.Tape) *CaseOut {
 			out.V = &sim.Violation{Kind: sv.Kind, Site: "AddCmd", Detail: sv.Detail}
 			return out
 		}
+		if userAfter := snap(); userAfter != userBefore {
+			out.V = &sim.Violation{Kind: "user-object-mutated", Site: "AddCmd", Detail: fmt.Sprintf("an exec.Cmd handed to AddCmd was changed by the calls:\nbefore %s\nafter  %s", userBefore, userAfter)}
+			return out
+		}
+		lateResult := ""
 		for _, op := range all {
 			if op.Panic != "" {
 				out.V = &sim.Violation{Kind: "panic", Site: "AddCmd", Detail: op.Panic}
 				return out
+			}
+			if op.MT == "text/x-cmdlate" {
+				// success or failure is not prescribed, only that every call agrees
+				r := fmt.Sprintf("ok=%v echoed=%v", op.Err == nil, bytes.Equal(op.Out, op.In))
+				if lateResult == "" {
+					lateResult = r
+				} else if r != lateResult {
+					out.V = &sim.Violation{Kind: "output-differs", Site: "AddCmd:" + op.MT, Detail: fmt.Sprintf("identical calls of one command minifier disagree: %s vs %s (last error %v)", lateResult, r, op.Err)}
+					return out
+				}
+				continue
 			}
 			if op.Err != nil || !bytes.Equal(op.Out, op.In) {
 				out.V = &sim.Violation{Kind: "output-differs", Site: "AddCmd:" + op.MT,
@@ -422,6 +461,11 @@ func c13Case(env *Env, tape *sim.Tape) *CaseOut {
 		}
 		if errText(gotErr) != errText(o.ref.Err) {
 			return fail("error-differs", site, fmt.Sprintf("concurrent call reported %q, sequential call %q [doc=%s]", errText(gotErr), errText(o.ref.Err), env.Corpus[o.di].Name))
+		}
+		if o.Entry == ERespWriter && len(o.In) == 0 {
+			// a response without a body never reaches a minifier (no Write call starts one):
+			// nothing to compare with the sequential plain call on an empty document
+			continue
 		}
 		if o.ref.Err == nil && !bytes.Equal(o.Out, o.ref.Out) {
 			return fail("output-differs", site, fmt.Sprintf("concurrent call returned %d bytes %q, sequential call %d bytes %q [doc=%s]",
